@@ -3,7 +3,7 @@ from .c04 import STB
 
 
 def run(res):
-    n = 170 if res.tier == "quick" else 3400
+    n = 175 if res.tier == "quick" else 3500
     lib.standard_check(
         res, "c12", n,
         prop_files=["theories/Properties/C12.v"],
